@@ -268,17 +268,17 @@ def judge(mon, c):
             else:
                 c['version'] = vers[0]
                 if vers[0] not in [v for v, _ in cur]:
-                    reasons.append('R1: returned the parse of v%d, but during the call [tick %d..%d] the source '
+                    reasons.append('R1: returned the parse of v%d, but during the call [tick %g..%g] the source '
                                    'was %s' % (vers[0], c['t0'], c['t1'],
-                                               '/'.join('v%d (since tick %d)' % x for x in cur)))
+                                               '/'.join('v%d (since tick %g)' % x for x in cur)))
             if kind == 'qscan' and vers and [vers[0]] != [mon.src_hist[-1][1]]:
                 reasons.append('R5: a fresh scan at quiescence returned v%d, current is v%d'
                                % (vers[0], mon.src_hist[-1][1]))
             if from_cache:
                 emt = reads[0][6][2]
                 if cur and all(tick > emt for _, tick in cur):
-                    reasons.append('R2: entry with mtime %d used although the source is newer (%s)'
-                                   % (emt, '/'.join('v%d@%d' % x for x in cur)))
+                    reasons.append('R2: entry with mtime %g used although the source is newer (%s)'
+                                   % (emt, '/'.join('v%d@%g' % x for x in cur)))
                 tags = set(e[6][3] for e in reads)
                 for t in sorted(tags, key=repr):
                     if t and t[0] == 'w' and t[2] != c['install']:
@@ -376,22 +376,24 @@ def make_exec(scn, entry, move):
     ex = Exec(vfs, mon)
     mon.ex = ex
     sched.CUR[0] = ex
-    # history: v1 installed at tick 10, replaced by v2 at tick 20
-    vfs.mkfile(SRC, gir_text(2), 20, ('src', 2))
-    mon.src_hist = [(10, 1), (20, 2)]
+    # history (seconds): v1 installed at 10.375; an entry for it written at 20.125; v2 replaces
+    # the source at 20.625 - in the same whole second as that (now stale) entry; a fresh
+    # entry is written at 20.875
+    vfs.mkfile(SRC, gir_text(2), 20.625, ('src', 2))
+    mon.src_hist = [(10.375, 1), (20.625, 2)]
     init = ('w', 'init', 'H1')
     if entry == 'fresh':
-        vfs.mkfile(ENTRY, PICKLES[2], 25, init)
+        vfs.mkfile(ENTRY, PICKLES[2], 20.875, init)
     elif entry == 'stale':
-        vfs.mkfile(ENTRY, PICKLES[1], 15, init)
+        vfs.mkfile(ENTRY, PICKLES[1], 20.125, init)
     elif entry == 'truncated':
-        vfs.mkfile(ENTRY, PICKLES[2][:CHUNK - 7], 25, init)
+        vfs.mkfile(ENTRY, PICKLES[2][:CHUNK - 7], 20.875, init)
     elif entry == 'garbage':
-        vfs.mkfile(ENTRY, b'\x00not a pickle\xff' * 20, 25, init)
-    vfs.clock = 30
+        vfs.mkfile(ENTRY, b'\x00not a pickle\xff' * 20, 20.875, init)
+    vfs.clock = 30.125
     ex.solo('setup', 'H1')
-    vfs.mkfile(VER, cachestore._get_versionhash().encode('ascii'), 5, init)
-    vfs.clock = 40
+    vfs.mkfile(VER, cachestore._get_versionhash().encode('ascii'), 5.375, init)
+    vfs.clock = 40.125
     data2 = _parse_real(2)
 
     def mk(name, kind):
@@ -637,7 +639,8 @@ def run(ctx):
                     'write_split': 2, 'copy_chunks': 2})
     ctx.assumptions += [
         'each virtual-file-system call is atomic; Python code between calls has no effect other processes can see',
-        'logical clock strictly increasing: no two mutations share a timestamp, sources never carry older mtimes',
+        'logical clock strictly increasing in steps of 0.25 s off the integer grid (float st_mtime through stat and fstat): '
+        'several ordered events share a whole second; no two mutations share a timestamp; sources never carry older mtimes',
         'process kill only (buffered, unflushed data is lost; completed writes are never reordered)',
         'invisible (no scheduling point): path functions, environment, stat/glob of the per-process scanner '
         'installation, makedirs of an existing directory, close(), the EXDEV-failing rename and the isdir probe '
@@ -670,13 +673,13 @@ def replay(ctx, case):
     if logs[0] != logs[1]:
         raise HarnessBroken('two replays of the same schedule differ')
     print('scenario %s, entry initially %s, move kind %s' % (scn, entry, move))
-    print('source history: v1 since tick 10, v2 since tick 20%s' %
-          ''.join(', v%d since tick %d' % (v, t) for t, v in ex.monitor.src_hist[2:]))
+    print('source history: v1 since tick 10.375, v2 since tick 20.625%s' %
+          ''.join(', v%d since tick %g' % (v, t) for t, v in ex.monitor.src_hist[2:]))
     print('schedule (%d preemptions, %d kills):' % (ex.preemptions, ex.crashes))
     for t, l in ex.oplog:
         print('   %-3s %s' % (t, l))
     for c in ex.monitor.calls:
-        print('call %s.%s [tick %d..%d] -> %s' % (c['actor'], c['kind'], c['t0'], c['t1'],
+        print('call %s.%s [tick %g..%g] -> %s' % (c['actor'], c['kind'], c['t0'], c['t1'],
                                                    c['exc'] or ('None' if c['summary'] == 'None' else
                                                                 'parse of v%s' % c.get('version', '? ' + repr(c['summary'])))))
     for v in viols:
